@@ -86,6 +86,14 @@ fn cmd_run(args: &[String]) -> i32 {
     let sandbox = arg(args, "--sandbox").expect("--sandbox").to_string();
     let min_budget = Duration::from_millis(arg_u64(args, "--minimise-ms", 60_000));
     let keep_going = args.iter().any(|a| a == "--keep-going");
+    // optional: every run uses this network (a bundled benchmark model) instead of a generated one
+    let model_text: Option<String> = arg(args, "--model-file").map(|p| {
+        let bn = biodivine_lib_param_bn::BooleanNetwork::try_from_file(p).unwrap_or_else(|e| {
+            eprintln!("harness error: cannot read model {p}: {e}");
+            std::process::exit(2)
+        });
+        bn.to_string()
+    });
     let _ = std::fs::create_dir_all(&sandbox);
     let mut out = std::io::BufWriter::new(std::fs::File::create(out_path).expect("out file"));
     let start = Instant::now();
@@ -93,7 +101,7 @@ fn cmd_run(args: &[String]) -> i32 {
     let mut idx = worker;
     while done < max_runs && start.elapsed() < Duration::from_millis(time_ms) {
         let rs = prng::run_seed(seed, idx);
-        let case = Case::generate(&prop, rs, &tier);
+        let case = Case::generate(&prop, rs, &tier, model_text.as_deref());
         let hash_seed = prng::Rng::new(rs).fork("run.hash").next_u64();
         let t0 = Instant::now();
         let rep = match run_case(&case, hash_seed, &sandbox) {
@@ -218,7 +226,7 @@ fn cmd_gen(args: &[String]) -> i32 {
     let seed = arg_u64(args, "--seed", 1);
     let index = arg_u64(args, "--index", 0);
     let tier = arg(args, "--tier").unwrap_or("quick");
-    let case = Case::generate(prop, prng::run_seed(seed, index), tier);
+    let case = Case::generate(prop, prng::run_seed(seed, index), tier, None);
     println!("{}", serde_json::to_string_pretty(&case.to_json()).unwrap());
     0
 }
